@@ -136,7 +136,8 @@ JudgeItem(e) ==
   LET subj == "item." \o e.act.m
       a == e.act.args
       m == e.act.m
-  IN IF Crashed(e) THEN V("crash", subj, "C08", e.post.msg)
+      own == IF m = "find" THEN "C19" ELSE "C08"       \* (find is the helper of LIST.BVAL / IVAL / FVAL: "the n-th value of the requested type")
+  IN IF Crashed(e) THEN V("crash", subj, own, e.post.msg)
   ELSE Expect(
        CASE m = "size" -> RetEq(e.ret, RVal(Size(a[1])))
          [] m = "shallow_size" -> RetEq(e.ret, RVal(IF a[1].k = "list" THEN Len(a[1].v) + 1 ELSE 1))
@@ -149,9 +150,15 @@ JudgeItem(e) ==
          [] m = "substitute" -> StructFuzzy(a[1]) \/ StructFuzzy(a[2]) \/ RetEq(e.ret, RVal(Subst(a[1], a[2], a[3])))
          [] m = "equals" -> StructFuzzy(a[1]) \/ StructFuzzy(a[2]) \/ RetEq(e.ret, RVal(DeepEq(a[1], a[2])))
          [] m = "shallow_eq" -> RetEq(e.ret, RVal(ShallowEq(a[1], a[2])))
+         \* the n-th point of the pattern's kind in depth-first order (the item itself first), counting on from a[3];
+         \* Err carries the count reached
+         [] m = "find" -> LET ms == SelectPoints(a[1], LAMBDA p : ShallowEq(p, a[2])) IN
+                          IF a[4] >= a[3] /\ a[4] - a[3] < Len(ms) THEN e.ret.t = "ok" /\ e.ret.v = ms[a[4] - a[3] + 1]
+                          ELSE IF a[4] < a[3] THEN e.ret.t = "err" /\ e.ret.v = a[3] + Len(ms)
+                          ELSE e.ret.t = "err" /\ e.ret.v = a[3] + Len(ms)
          [] m = "to_string" -> Fuzzy(a[1]) \/ RetEq(e.ret, RVal(PrintItem(a[1])))
          [] OTHER -> FALSE,
-       subj, "C08", "Item function differs from the depth-first point algebra")
+       subj, own, "Item function differs from the depth-first point algebra")
 
 \* random generators: contracts (C12, C13)
 ValidLeaf(p, instrs) ==
